@@ -5,6 +5,9 @@
    where the world is about refusal). *)
 EXTENDS Integers, Sequences
 
+AllSingletonTypes == {"SOA", "CNAME", "DNAME", "NSEC", "NXT"}
+AllSigTypes == {"RRSIG", "SIG"}
+
 It(rc, rt, cv, c, v) == <<rc, rt, cv, c, v>>
 Hd(rc, rt, cv, items, ttl) ==
     [items |-> items, ttl |-> ttl, rdclass |-> rc, rdtype |-> rt, covers |-> cv, frozen |-> FALSE]
@@ -32,6 +35,17 @@ SingleInits(rc, rt, cv) ==
         <<Hd(rc, rt, cv, <<i(1, 1)>>, 300), Hd(rc, rt, cv, <<i(2, 1)>>, 600), E>>,
         <<Hd(rc, rt, cv, <<i(1, 1)>>, 600), Hd(rc, rt, cv, <<i(1, 2)>>, 300), Hd(rc, rt, cv, <<i(3, 1)>>, 0)>>}
 
+(* one non-trivial initial state (for the exhaustive two-call scripts) *)
+UniInit2(rc, rt, cv) ==
+    LET i(c, v) == It(rc, rt, cv, c, v)
+    IN {<<Hd(rc, rt, cv, <<i(1, 1), i(2, 1)>>, 300), Hd(rc, rt, cv, <<i(2, 2), i(3, 1)>>, 600), Hd(rc, rt, cv, <<>>, 0)>>}
+SingleInit2(rc, rt, cv) ==
+    LET i(c, v) == It(rc, rt, cv, c, v)
+    IN {<<Hd(rc, rt, cv, <<i(1, 1)>>, 600), Hd(rc, rt, cv, <<i(1, 2)>>, 300), Hd(rc, rt, cv, <<i(3, 1)>>, 0)>>}
+Init2Set == UniInit2("-", "-", "-")
+Init2MX == UniInit2("IN", "MX", "NONE")
+Init2CNAME == SingleInit2("IN", "CNAME", "NONE")
+
 (* world "set": the untyped base class *)
 ItemsSet == Uni("-", "-", "-")
 InitsSet == UniInits("-", "-", "-")
@@ -45,16 +59,16 @@ ItemsCNAME == Uni("IN", "CNAME", "NONE")
 InitsCNAME == SingleInits("IN", "CNAME", "NONE")
 ItemsSOA == Uni("IN", "SOA", "NONE")
 InitsSOA == SingleInits("IN", "SOA", "NONE")
-(* world "mixed": handles of kinds A, A, MX; items of kinds A, MX and class CH *)
+(* world "mixed": handles of kinds A, A, MX; items of kinds A, MX and of class CH (same type, other class) *)
 ItemsMixed == {It("IN", "A", "NONE", 1, 1), It("IN", "A", "NONE", 2, 1), It("IN", "MX", "NONE", 1, 1),
-               It("IN", "MX", "NONE", 1, 2), It("CH", "A", "NONE", 1, 1)}
+               It("IN", "MX", "NONE", 1, 2), It("CH", "MX", "NONE", 1, 1)}
 InitsMixed ==
     {<<Hd("IN", "A", "NONE", <<>>, 0), Hd("IN", "A", "NONE", <<>>, 600), Hd("IN", "MX", "NONE", <<>>, 300)>>,
      <<Hd("IN", "A", "NONE", <<It("IN", "A", "NONE", 1, 1)>>, 300),
        Hd("IN", "A", "NONE", <<It("IN", "A", "NONE", 2, 1), It("IN", "A", "NONE", 1, 1)>>, 600),
        Hd("IN", "MX", "NONE", <<It("IN", "MX", "NONE", 1, 1)>>, 0)>>,
      <<Hd("IN", "A", "NONE", <<It("IN", "A", "NONE", 1, 1)>>, 600),
-       Hd("CH", "A", "NONE", <<It("CH", "A", "NONE", 1, 1)>>, 300),
+       Hd("CH", "MX", "NONE", <<It("CH", "MX", "NONE", 1, 1)>>, 300),
        Hd("IN", "MX", "NONE", <<>>, 0)>>}
 (* world "rrsig": covered types; handle 1 covers nothing yet *)
 ItemsRRSIG == {It("IN", "RRSIG", "A", 1, 1), It("IN", "RRSIG", "A", 1, 2), It("IN", "RRSIG", "A", 2, 1),
@@ -66,6 +80,33 @@ InitsRRSIG ==
        Hd("IN", "RRSIG", "A", <<It("IN", "RRSIG", "A", 2, 1), It("IN", "RRSIG", "A", 1, 2)>>, 600),
        Hd("IN", "RRSIG", "A", <<>>, 0)>>}
 
-AllSingletonTypes == {"SOA", "CNAME", "DNAME", "NSEC", "NXT"}
-AllSigTypes == {"RRSIG", "SIG"}
+
+(* ALL well-formed values of one handle kind over an item set (for the check of the laws
+   on every configuration, not only the reachable ones) *)
+ClsOf(i) == <<i[1], i[2], i[3], i[4]>>
+SeqsOver(S, n) == UNION {[1..k -> S] : k \in 0..n}
+DupFree(s) == \A j, k \in 1..Len(s) : j # k => ClsOf(s[j]) # ClsOf(s[k])
+HandleValues(rc, rt, cv, S, maxlen, ttls) ==
+    LET mine == {i \in S : rc = "-" \/ (i[1] = rc /\ i[2] = rt /\ (cv = "NONE" \/ i[3] = cv))}
+        seqs == {s \in SeqsOver(mine, maxlen) : DupFree(s)}
+    IN {Hd(rc, rt, IF s # <<>> /\ rt \in AllSigTypes THEN s[1][3] ELSE cv, s, t) : s \in seqs, t \in ttls}
+PairsOf(V) == {<<a, b>> : a \in V, b \in V}
+AllSet == PairsOf(HandleValues("-", "-", "-", ItemsSet, 3, {0}))
+AllMX == PairsOf(HandleValues("IN", "MX", "NONE", ItemsMX, 3, {300, 600}))
+AllCNAME == PairsOf(HandleValues("IN", "CNAME", "NONE", ItemsCNAME, 1, {300, 600}))
+AllMixed == PairsOf(HandleValues("IN", "A", "NONE", ItemsMixed, 3, {300, 600})
+                      \cup HandleValues("IN", "MX", "NONE", ItemsMixed, 3, {300, 600})
+                      \cup HandleValues("CH", "MX", "NONE", ItemsMixed, 3, {300}))
+AllRRSIG == PairsOf(HandleValues("IN", "RRSIG", "NONE", {}, 0, {300, 600})
+                      \cup HandleValues("IN", "RRSIG", "A", ItemsRRSIG, 3, {300, 600})
+                      \cup HandleValues("IN", "RRSIG", "NS", ItemsRRSIG, 3, {300, 600}))
+Init2Mixed ==
+    {<<Hd("IN", "A", "NONE", <<It("IN", "A", "NONE", 1, 1)>>, 300),
+       Hd("IN", "A", "NONE", <<It("IN", "A", "NONE", 2, 1), It("IN", "A", "NONE", 1, 1)>>, 600),
+       Hd("IN", "MX", "NONE", <<It("IN", "MX", "NONE", 1, 1)>>, 0)>>}
+Init2RRSIG ==
+    {<<Hd("IN", "RRSIG", "NONE", <<>>, 0), Hd("IN", "RRSIG", "A", <<It("IN", "RRSIG", "A", 1, 1)>>, 300),
+       Hd("IN", "RRSIG", "NS", <<It("IN", "RRSIG", "NS", 1, 1)>>, 600)>>}
+AllConfigurations == AllSet \cup AllMX \cup AllCNAME \cup AllMixed \cup AllRRSIG
+AllItems == ItemsSet \cup ItemsMX \cup ItemsCNAME \cup ItemsMixed \cup ItemsRRSIG
 =============================================================================
